@@ -319,6 +319,24 @@ func (a pipeAddr) String() string  { return a.s }
 // NewPair returns a connected pair of virtual connections owned by the given
 // domains (for harnesses that need a raw connection).
 func NewPair(da, db *vs.Domain) (net.Conn, net.Conn) {
+	if !virtual() {
+		// free-running (conformance) mode: a real Unix socket pair
+		dir, err := os.MkdirTemp("", "vnetpair")
+		if err == nil {
+			defer os.RemoveAll(dir)
+			if l, err := net.Listen("unix", dir+"/s"); err == nil {
+				defer l.Close()
+				ch := make(chan net.Conn, 1)
+				go func() { c, _ := l.Accept(); ch <- c }()
+				if a, err := net.Dial("unix", dir+"/s"); err == nil {
+					if b := <-ch; b != nil {
+						return a, b
+					}
+				}
+			}
+		}
+		return net.Pipe()
+	}
 	return newPair(pipeAddr{"pipe"}, da, db)
 }
 
